@@ -111,17 +111,23 @@ def is_special(line):
     return len(f) > 14 and f[14] != 'std'
 
 
-def probe_of(line):
+def probe_of(line, which='1'):
     f = line.split()
-    f[15] = '1'
+    f[15] = which
     f[13] = '0'      # no recorder
     return ' '.join(f)
 
 
 def kernel_rejects(line, binary=None, env=None):
-    """The single-cell runs alone crash too: the kernel panics on this parameter draw (skip the case)."""
-    r = run_lines(binary or CELLRUN, [probe_of(line)], env=env or GOENV)[0]
-    return not r.startswith('{')
+    """A special-stream case crashed.  Run the single-cell runs alone and ONE vectorised run alone:
+    'both'   : the kernel panics on this parameter draw however it is run (skip the case);
+    'single' : only the single-cell runs panic  -> vectorised and alone DIFFER (a violation);
+    'vector' : only the vectorised run panics   -> likewise;
+    'neither': the crash is elsewhere (views, repeated Run, ..) -> a violation."""
+    rs = run_lines(binary or CELLRUN, [probe_of(line, '1')], env=env or GOENV)[0]
+    rv = run_lines(binary or CELLRUN, [probe_of(line, '2')], env=env or GOENV)[0]
+    cs, cv = not rs.startswith('{'), not rv.startswith('{')
+    return 'both' if cs and cv else 'single' if cs else 'vector' if cv else 'neither'
 
 
 def add_positions(table, r):
@@ -153,6 +159,7 @@ def gen_run_cases(rng, models, per_model, backends=('go',), record=1):
     return lines
 
 
+OUT_CASE_DEADLINE = 8      # seconds per out-of-range case
 MANY_N = [63, 64, 65, 100, 129, 200, 257]
 MANY_MODELS = ['RunoffCoefficient', 'EmcDwc', 'Sum', 'Muskingum', 'GR4J', 'Lag', 'RatingCurvePartition']
 
@@ -192,7 +199,24 @@ def gen_many_cells(rng, models, ns, record_upto=10 ** 9, per_n=None):
 
 def run_cases(lines, binary=CELLRUN, env=None, timeout=900):
     """-> list of (line, result dict | None, raw)"""
-    raw = run_lines(binary, lines, timeout=timeout, env=env or GOENV)
+    if os.environ.get('VERIF_DUMP_LINES'):
+        with open(os.environ['VERIF_DUMP_LINES'], 'a') as f:
+            f.write('\n'.join(lines) + '\n')
+    # out-of-range draws can send a kernel into very long sub-step loops: each such case runs in its own
+    # process with a deadline and is skipped ('TIMEOUT') when the kernel does not come back
+    slow_idx = [i for i, l in enumerate(lines) if len(l.split()) > 14 and l.split()[14] == 'out']
+    fast = [l for i, l in enumerate(lines) if i not in set(slow_idx)]
+    raw_fast = iter(run_lines(binary, fast, timeout=timeout, env=env or GOENV))
+    raw = []
+    ss = set(slow_idx)
+    for i, l in enumerate(lines):
+        if i in ss:
+            try:
+                raw.append(run_lines(binary, [l], timeout=OUT_CASE_DEADLINE, env=env or GOENV)[0])
+            except subprocess.TimeoutExpired:
+                raw.append('TIMEOUT')
+        else:
+            raw.append(next(raw_fast))
     res = []
     for l, r in zip(lines, raw):
         try:
